@@ -37,9 +37,12 @@ PROP = {
         "Momo.StdWrap.C06_eraseRange_exact_multimap",
         "Momo.StdWrap.C06_eraseRange_legal_multimap",
         "Momo.StdWrap.C06_mm_eq_iff",
+        "Momo.StdWrap.C06_uset_eq_iff",
         "Momo.StdWrap.C06_hint_closest",
         "Momo.StdWrap.C06_insert_equal_stable",
         "Momo.StdWrap.C06_hint_unique",
+        "Momo.StdWrap.C06_node_handle",
+        "Momo.StdWrap.C06_equal_range",
         "Momo.StdWrap.C06_map_at",
         "Momo.StdWrap.C06_map_insert_or_assign",
         "Momo.StdWrap.C06_umap_try_emplace",
